@@ -18,10 +18,12 @@ PROPS = {
     "C08": {"suites": {"quick": SEQ("C08", 1500, 60000)["quick"] + [("stress", {"count": 1000})], "thorough": SEQ("C08", 1500, 60000)["thorough"] + [("stress", {"count": 20000})]}, "design": "6/C08"},
     "C11": {"suites": {"quick": SEQ("C11", 1500, 60000)["quick"] + [("conn", {"profile": "C11", "count": 20, "tier": "quick"})],
                        "thorough": SEQ("C11", 1500, 60000)["thorough"] + [("conn", {"profile": "C11", "count": 400, "tier": "thorough"})]}, "design": "6/C11"},
-    "C19": {"suites": {"quick": [("seq", {"profile": "C19", "count": 1000})], "thorough": [("seq", {"profile": "C19", "count": 40000})]}, "design": "6/C19"},
+    "C19": {"suites": {"quick": [("seq", {"profile": "C19", "count": 1000}), ("conn", {"profile": "C12", "count": 30, "tier": "quick"})],
+                       "thorough": [("seq", {"profile": "C19", "count": 40000}), ("conn", {"profile": "C12", "count": 600, "tier": "thorough"})]}, "design": "6/C19",
+            "projection": core.framing_projection(with_dump=True)},
 }
 
-STREAM = lambda prof, q, t: {"quick": [("codec", {"profile": prof, "count": q, "tier": "quick"}), ("conn", {"profile": prof, "count": max(q // 4, 10), "tier": "quick"})],
+STREAM = lambda prof, q, t: {"quick": [("codec", {"profile": prof, "count": q, "tier": "quick"}), ("conn", {"profile": prof, "count": max(q // 3, 10), "tier": "quick"})],
                              "thorough": [("codec", {"profile": prof, "count": t, "tier": "thorough"}), ("conn", {"profile": prof, "count": t // 2, "tier": "thorough"})]}
 PROPS.update({
     "C09": {"suites": STREAM("C09", 120, 1500), "design": "6/C09", "projection": core.framing_projection()},
@@ -198,6 +200,15 @@ def run_check(prop, tier, seed, replay):
                 hang = h
                 break
             except core.HarnessCrash as c:
+                if "cannot connect to the in-process server" in c.out:
+                    starts = [i for i, l in enumerate(c.lines) if l.startswith(("new", "conn"))]
+                    prog_lines = c.lines[(starts[-2] if len(starts) > 1 else 0):]
+                    payload = {"kind": "counterexample", "property": prop, "suite": c.suite, "seed": seed,
+                               "oracle": "the in-process server stopped accepting connections (connect refused) while the last of these lines ran: "
+                                         "a fault on one connection must not stop the server from serving the others",
+                               "ops": prog_lines[-60:]}
+                    problems.append(("counterexample", payload["oracle"], payload, True))
+                    break
                 payload = {"kind": "harness-crash", "property": prop, "suite": c.suite, "seed": seed, "rc": c.rc,
                            "output": c.out[-3000:], "last_lines": c.lines[-40:]}
                 problems.append(("harness", f"the harness process for suite {c.suite} exited with {c.rc}: {c.out[-200:]}", payload, False))
